@@ -25,7 +25,13 @@ func anchorIndex(r *Rule) int {
 // for every node path ("" is the root, ".0.1" the second child of the first child),
 // the 1-based line and 0-based rune column of the node's location token.
 func (e *Expr) PrintAnchors(multi bool) (string, map[string][2]int) {
-	p := &aprinter{multi: multi, line: 1, anchors: map[string][2]int{}}
+	return e.PrintAnchorsWith(multi, nil)
+}
+
+// PrintAnchorsWith is PrintAnchors with a callback that may drop the parentheses around a child
+// (used for layouts with minimal parentheses; the caller validates the text against the reference parser).
+func (e *Expr) PrintAnchorsWith(multi bool, noParen func(parent, kid *Expr, slot int) bool) (string, map[string][2]int) {
+	p := &aprinter{multi: multi, line: 1, anchors: map[string][2]int{}, noParen: noParen}
 	p.print(e, "")
 	return string(p.out), p.anchors
 }
@@ -35,6 +41,7 @@ type aprinter struct {
 	multi     bool
 	line, col int
 	anchors   map[string][2]int
+	noParen   func(parent, kid *Expr, slot int) bool
 }
 
 func (p *aprinter) emit(c rune) {
@@ -67,6 +74,9 @@ func (p *aprinter) print(e *Expr, path string) {
 		if f[i] == '%' && i+1 < len(f) && f[i+1] == 's' {
 			kid := e.Kids[k]
 			par := e.R.In[k].Operand && !kid.R.Atom || e.R.In[k].Postfix && kid.R.Op == "lit"
+			if par && p.noParen != nil && p.noParen(e, kid, k) {
+				par = false
+			}
 			if par {
 				p.emit('(')
 			}
